@@ -69,3 +69,12 @@ Proof. unfold velocity_matrix, average_velocity. destruct vs; reflexivity. Qed.
 Theorem no_junction_normaliser_is_one adim b vn :
   snd (velocity_matrix ROps adim [] b vn) = 1.
 Proof. reflexivity. Qed.
+
+(* the mean speed does not depend on the order in which the junctions are listed (each frame numbers its vertices independently) *)
+From Coq Require Import Permutation.
+Lemma rsum_perm (l1 l2 : list R) : Permutation l1 l2 -> sum ROps l1 = sum ROps l2.
+Proof. induction 1 as [|x l1 l2 _ IH|x y l|l1 l2 l3 _ IH1 _ IH2]; [reflexivity| | |congruence].
+  - rewrite !rsum_cons, IH. reflexivity.
+  - rewrite !rsum_cons. ring. Qed.
+Theorem mean_speed_order_independent vs vs' : Permutation vs vs' -> rmean vs = rmean vs'.
+Proof. intros P. unfold mean_speed. rewrite (Permutation_length P). f_equal. apply rsum_perm. apply Permutation_map. exact P. Qed.
